@@ -10,15 +10,10 @@ go result / model result per op:
                   is an extracted history predicate of Model/Writer.v that evaluated to false on
                   the recorded history, or det:<what> (deterministic scenario: the model RUN with
                   the recorded environment choices differs from the implementation)
-  f3            : hang | returned on both sides (late batchMessages after Close)
+  f3            : <close returned|hang>:<call result> on both sides (batchMessages after Close; expected returned:closed)
 """
 import hashlib, json, os
 import checklib as L
-
-F3_KEY = "F3-close-hangs-after-late-partition-writer"
-F3_WHAT = ("Close never returns: a WriteMessages call that passed enter() before Close ran batchMessages after Close "
-           "emptied w.writers; the new partition writer's sender goroutine waits on a queue nobody closes "
-           "(model: C09_w_close_refuted; replay: op f3, a BalancerFunc blocking until Close waits)")
 
 COMMON_TRUSTED = [
     "Coq 8.16.1 kernel (coqc; coqchk in the thorough tier); vm_compute only in non-vacuity Examples and the refutation witness; no native_compute",
@@ -105,17 +100,21 @@ def failures_of_case(c):
             out.append(("*", "correspondence", what, None))
         return out
     if op == "f3":
-        if go == "hang":
-            out.append(("C09", "property", F3_WHAT, F3_KEY))
+        # regression scenario: a call passed enter(), Close marked the writer closed, then the
+        # call's batchMessages ran.  Expected on both sides: returned:closed
+        close_res, _, call_res = go.partition(":")
+        if close_res == "hang":
+            out.append(("C09", "property",
+                        "Close never returns after a WriteMessages call that passed enter() before Close ran batchMessages "
+                        "after Close emptied w.writers (regression of the fixed defect F3)", None))
+        elif call_res not in ("closed",) or "produced" in c["feats"].split(","):
+            out.append(("C09", "property",
+                        f"a call whose batchMessages ran after Close did not fail with io.ErrClosedPipe / was sent ({go})", None))
         if go != model:
-            out.append(("C09", "correspondence", f"late-batchMessages witness: implementation says {go}, model says {model}", None))
+            out.append(("C09", "correspondence", f"batchMessages-after-Close scenario: implementation says {go}, model says {model}", None))
         return out
     if op == "e2e":
-        late = "late-call" in c["feats"].split(",")
-        if go.startswith("HANG:close") and late:
-            # the F3 interleaving arising on its own in a Close-racing scenario
-            out.append(("C09", "property", F3_WHAT, F3_KEY))
-        elif go.startswith("HANG:close"):
+        if go.startswith("HANG:close"):
             out.append(("C09", "property", "Close did not return within the watchdog", None))
         elif go.startswith("HANG"):
             out.append(("C09", "property", f"a blocked operation did not return within the watchdog ({go})", None))
@@ -127,15 +126,7 @@ def failures_of_case(c):
             names = model[5:].split(",") if model.startswith("FAIL:") else [model]
             for nm in names:
                 if nm in PRED_PROP:
-                    if late:
-                        # consequence of F3 (timing-dependent, so not a deterministic verdict of this
-                        # check): recorded in the evidence notes; the F3 failure itself is C09's
-                        out.append((PRED_PROP[nm], "note",
-                                    PRED_WHAT[nm] + " - in a scenario where batchMessages ran after Close (defect F3, reported by "
-                                    "C09 under key " + F3_KEY + ": a second partition writer for the same partition runs "
-                                    "concurrently; the theorems of this property assume s_late = false)", F3_KEY))
-                    else:
-                        out.append((PRED_PROP[nm], "property", PRED_WHAT[nm], None))
+                    out.append((PRED_PROP[nm], "property", PRED_WHAT[nm], None))
                 elif nm.startswith(CORR_NAMES):
                     out.append(("*", "correspondence",
                                 "deterministic scenario: run of the model differs from the implementation (" + nm + ")"
@@ -177,15 +168,12 @@ def nontrivial(c):
 def correspondence_for(prop, ctx, rule_extra=""):
     r = shared_run(ctx)
     cases = [c for c in r["cases"] if relevant(prop, c)]
-    failures, seen, notes = [], set(), []
+    failures, seen = [], set()
     for c in sorted(r["cases"], key=lambda c: 0 if c["op"] == "f3" else 1):
         for (p, layer, what, key) in failures_of_case(c):
             if p not in ("*", prop):
                 continue
             k = (layer, what, key)
-            if layer == "note":
-                notes.append(what + " [case " + c["id"] + ": " + c["line"][:300] + " ...]")
-                continue
             if k in seen:
                 continue
             seen.add(k)
@@ -207,7 +195,7 @@ def correspondence_for(prop, ctx, rule_extra=""):
     samples = [c["line"][:400] + " | " + c["go"][:60] + " | " + c["feats"][:120]
                for c in (cases[:2] + e2e[:2] + e2e[len(e2e)//2:len(e2e)//2+2] + cases[-1:])]
     return dict(
-        evaluations=len(cases), distinct_nontrivial=len(dn), hist=hist, samples=samples, failures=failures, notes=notes[:5],
+        evaluations=len(cases), distinct_nontrivial=len(dn), hist=hist, samples=samples, failures=failures,
         rule="cases from one PRNG (VERIF_SEED) in harness/cmd/writer: step-level (writeBatch.add/full with sizes at / one below / one above "
              "the limits; totalSize; partitionWriter.writeMessages call sequences) and end-to-end scenario programs on the real Writer over "
              "the fakert RoundTripper fake (1-8 callers, sync/async, BatchSize 1..10, BatchBytes 60..2000, BatchTimeout 1-20 ms, MaxAttempts 1-4, "
